@@ -43,6 +43,8 @@ CONSTANTS Shapes,      \* set of <<H,W>>: frames of the 2D masks explored (every
           ProjShapes,  \* frames of the 2D grids handed to project_grid
           Families,    \* which families of instances this run explores ("wrap", "project", "transform", "reloc", "tiny"): TLC's
                        \*   initial-state phase is single-threaded and superlinear, large bounds are split over several runs
+          RecShapes, RecLens, RecGeoms,   \* histories with a Reconfigure step between the first and the second (relocating) call
+          Confs,       \* the configurations (1 = the one in force when the process starts) a Reconfigure step may push
           ClsShapes, ClsLens,   \* frames / lengths of the grids handed over as instances of a SUBCLASS of their grid kind
           AngleQs      \* profile angles as multiples of 90 degrees (-2 .. 5 covers every quadrant and beyond a full turn);
                        \*   99 = the profile has no angle attribute, 98 = a numeric angle picked by the harness
@@ -146,11 +148,37 @@ ScaleByRatio(p, R, S) ==
     IF Far(p, R) THEN Scal(S, p)
     ELSE << Rounded(p[1] * R * S, IntRadius(p)), Rounded(p[2] * R * S, IntRadius(p)) >>
 
+\* ---- configuration ------------------------------------------------------------
+\* The radial minimum of a profile class is CONFIGURATION (grids.yaml, section radial_minimum) and configuration can change
+\* while a process runs (another config directory is pushed).  A relocating call uses the minimum configured when it is made.
+\* The configurations of the harness (harness/conf, conf_c17b, conf_c17c), in units of 1/4:
+ConfMin(c, prof) ==
+    CASE c = 1 -> (IF prof = "VProfile" THEN 10 ELSE 3)        \* 2.5  / 0.75
+      [] c = 2 -> (IF prof = "VProfile" THEN 3 ELSE 10)        \* 0.75 / 2.5
+      [] OTHER -> (IF prof = "VProfile" THEN 5 ELSE 6)         \* 1.25 / 1.5
+\* the profile class of an instance is fixed by the minimum it has in configuration 1 (par[4])
+ProfOf(R1) == IF R1 = 10 THEN "VProfile" ELSE "VProfileSmall"
+\* configuration in force after the reconfigurations cs (in order)
+InForce(cs) == IF cs = << >> THEN 1 ELSE cs[Len(cs)]
+
 \* ---- radially projected lines -------------------------------------------------
 \* 1D grid of n pixels, pixel scale s (even, units), origin o: coordinate of pixel j (0-based)
 Coord1D(j, n, s, o) == o + (2 * j - (n - 1)) * (s \div 2)
 \* the coordinates of the unmasked pixels u (ascending pixel indices) in slim order
 Coords1D(u, n, s, o) == [k \in 1 .. Len(u) |-> Coord1D(u[k], n, s, o)]
+\* The NUMBER of points a 2D grid is projected on (documented: the longest of the four paths from the centre to the edge of the
+\* grid's extent, counted in pixel scales, plus the centre itself).  Frame h x w, pixel scale s (even), origin o, centre c, in
+\* units: the half extents are h*s/2 and w*s/2, the longest path is d, the count is floor(d / s) + 1.
+LongestPath(h, w, s, o, c) ==
+    LET dy == (h * (s \div 2)) + Abs(c[1] - o[1])
+        dx == (w * (s \div 2)) + Abs(c[2] - o[2])
+    IN IF dy >= dx THEN dy ELSE dx
+ProjectedCount(h, w, s, o, c) == LongestPath(h, w, s, o, c) \div s + 1
+\* When d is an exact multiple of s and the unit is not a power of two, d / s is computed with two rounded operands and may
+\* come out just below the integer: one point fewer is then accepted (never one more).  k0 = 1: the centre point is removed.
+CountOk(n, k0, h, w, s, o, c, dyadic) ==
+    LET N == ProjectedCount(h, w, s, o, c) - k0
+    IN n = N \/ (~ dyadic /\ LongestPath(h, w, s, o, c) % s = 0 /\ n = N - 1)
 \* a 2D grid projected from a centre: n points, the first one k0 steps from the centre, spaced by the pixel scale
 ProjXs(n, s, k0) == [k \in 1 .. n |-> (k0 + k - 1) * s]
 
@@ -246,8 +274,9 @@ VARIABLES inst,    \* the call (single-step machine) or the grid and the number 
           phase, obs,
           grid,    \* the caller's grid OBJECT: the tag of the coordinate it holds at every slim position.  It is built as
                    \* 0 .. n-1 and it is INPUT to every decorated call: no call may write to it.
-          hist     \* history machine: the calls made so far on the one grid object, each with the coordinates it worked from
-vars == << inst, phase, obs, grid, hist >>
+          hist,    \* history machine: the calls made so far on the one grid object, each with the coordinates it worked from
+          cfg      \* the configuration in force (an element of Confs; 1 when the process starts)
+vars == << inst, phase, obs, grid, hist, cfg >>
 
 Masks(sh) == (SUBSET Cells(sh[1], sh[2])) \ {{}}
 AllCells(n) == Cells(1, n)
@@ -323,6 +352,7 @@ Init == /\ \/ "wrap" \in Families /\ (inst \in WrapG2D \/ inst \in WrapIrr \/ in
         /\ obs = << >>
         /\ grid = BuiltTerms(Cardinality(inst.u))
         /\ hist = << >>
+        /\ cfg = 1
 
 NPts == Cardinality(inst.u)
 IsTiny == inst.par[1] < 0
@@ -347,7 +377,7 @@ Returns ==
                       u |-> LET ss == SlimSeq(inst.u, inst.h, inst.w) IN [j \in 1 .. Len(ss) |-> Lin(ss[j], inst.w)],
                       par |-> inst.par, depth |-> inst.depth, flag |-> inst.flag, cls |-> inst.cls]))
     /\ grid' = grid           \* the input grid is read, never written
-    /\ UNCHANGED << inst, hist >>
+    /\ UNCHANGED << inst, hist, cfg >>
 
 \* one action per public decorator (and one for the usual stack to_array/to_grid o transform o relocate_to_radial_minimum)
 ToArray == inst.api = "to_array" /\ Returns
@@ -369,25 +399,32 @@ Spec == Init /\ [][Next]_vars
 HApis(gk) == IF gk = "g1d" THEN {"to_array", "to_grid", "project"}
              ELSE {"reloc", "stack_array", "to_array", "to_grid", "to_vector_yx", "project"}
 HFirst(gk) == IF gk = "g1d" THEN HApis(gk) ELSE {"reloc", "stack_array"}
-HistFamily(shapes, lens, geoms, der) ==
-    UNION { UNION { { Mk("history", "g2d", "values", FALSE, sh[1], sh[2], u, g, HistLen, der) : u \in Masks(sh) }
+HistFamily(shapes, lens, geoms, der, rec) ==
+    UNION { UNION { { Mk("history", "g2d", "values", rec, sh[1], sh[2], u, g, HistLen, der) : u \in Masks(sh) }
                     : sh \in shapes } : g \in geoms }
-    \cup { Mk("history", "irr", "values", FALSE, 1, n, AllCells(n), << 0, 0, 0, R >>, HistLen, der)
+    \cup { Mk("history", "irr", "values", rec, 1, n, AllCells(n), << 0, 0, 0, R >>, HistLen, der)
              : n \in lens, R \in { g[4] : g \in geoms } }
-    \cup UNION { { Mk("history", "g1d", "values", FALSE, 1, n, u, NoPar, HistLen, der) : u \in Masks(<<1, n>>) } : n \in lens }
-\* flag = TRUE: the caller derives a new grid from the one just evaluated and goes on with THAT grid
-HistInstances == HistFamily(HistShapes, HistLens, HistGeoms, FALSE) \cup HistFamily(DerShapes, DerLens, DerGeoms, TRUE)
+    \cup (IF rec THEN {} ELSE
+          UNION { { Mk("history", "g1d", "values", rec, 1, n, u, NoPar, HistLen, der) : u \in Masks(<<1, n>>) } : n \in lens })
+\* flag = TRUE: the caller derives a new grid from the one just evaluated and goes on with THAT grid;
+\* lst  = TRUE: the configuration changes between the first call and the next (relocating) call
+HistInstances == HistFamily(HistShapes, HistLens, HistGeoms, FALSE, FALSE) \cup HistFamily(DerShapes, DerLens, DerGeoms, TRUE, FALSE)
+                 \cup HistFamily(RecShapes, RecLens, RecGeoms, FALSE, TRUE)
 
 InitH == /\ inst \in HistInstances
          /\ phase = "history"
          /\ obs = << >>
          /\ grid = BuiltTerms(Cardinality(inst.u))
          /\ hist = << >>
+         /\ cfg = 1
 
 NoOp == << 0, 0, 0, 0 >>
-CallsIn(hh) == Len(SelectSeq(hh, LAMBDA e : e.api # "derive"))
-DerivesIn(hh) == Len(hh) - CallsIn(hh)
+CallsIn(hh) == Len(SelectSeq(hh, LAMBDA e : e.api \notin {"derive", "reconfigure"}))
+DerivesIn(hh) == Len(SelectSeq(hh, LAMBDA e : e.api = "derive"))
+ReconfsIn(hh) == Len(SelectSeq(hh, LAMBDA e : e.api = "reconfigure"))
 MustDerive == inst.flag /\ CallsIn(hist) = 1 /\ DerivesIn(hist) = 0
+MustReconfigure == inst.lst /\ CallsIn(hist) = 1 /\ ReconfsIn(hist) = 0
+Relocating == {"reloc", "stack_array", "stack_grid"}
 Dump(hh) ==
     PrintT(ToJson([k |-> "hist", gk |-> inst.gk, h |-> inst.h, w |-> inst.w,
                    u |-> LET ss == SlimSeq(inst.u, inst.h, inst.w) IN [j \in 1 .. Len(ss) |-> Lin(ss[j], inst.w)],
@@ -397,12 +434,14 @@ Dump(hh) ==
 HCall(a) ==
     /\ phase = "history"
     /\ CallsIn(hist) < inst.depth
-    /\ ~ MustDerive
-    /\ a \in (IF hist = << >> THEN HFirst(inst.gk) ELSE HApis(inst.gk))
-    /\ hist' = Append(hist, [api |-> a, op |-> NoOp, seen |-> grid])
+    /\ ~ MustDerive /\ ~ MustReconfigure
+    /\ a \in (IF hist = << >> \/ (inst.lst /\ CallsIn(hist) = 1) THEN HFirst(inst.gk) ELSE HApis(inst.gk))
+    \* a relocating call works with the radial minimum configured NOW (op[1]; 0 for the other calls)
+    /\ hist' = Append(hist, [api |-> a, op |-> << IF a \in Relocating THEN ConfMin(cfg, ProfOf(inst.par[4])) ELSE 0, 0, 0, 0 >>,
+                              seen |-> grid])
     /\ grid' = grid           \* whatever the call hands to the function (moved, projected, transformed) is a NEW array
     /\ (CallsIn(hist) + 1 = inst.depth) => Dump(hist')
-    /\ UNCHANGED << inst, phase, obs >>
+    /\ UNCHANGED << inst, phase, obs, cfg >>
 
 \* the caller derives a grid (g + a, a * g, g[a:], g[a] = b) and holds that one from now on: its coordinates are the
 \* derived ones -- this is the ONLY kind of step after which the grid reads differently
@@ -412,9 +451,18 @@ Derive(op) ==
     /\ DeriveApplies(op, inst.gk, Len(grid))
     /\ grid' = DeriveTerms(grid, op)
     /\ hist' = Append(hist, [api |-> "derive", op |-> op, seen |-> grid'])
-    /\ UNCHANGED << inst, phase, obs >>
+    /\ UNCHANGED << inst, phase, obs, cfg >>
 
-NextH == (\E a \in HApis(inst.gk) : HCall(a)) \/ (\E op \in DerOps : Derive(op))
+\* another configuration is pushed (other radial minima for the same profile classes); the grid is not touched
+Reconfigure(c) ==
+    /\ phase = "history"
+    /\ MustReconfigure
+    /\ c # cfg
+    /\ cfg' = c
+    /\ hist' = Append(hist, [api |-> "reconfigure", op |-> << c, 0, 0, 0 >>, seen |-> grid])
+    /\ UNCHANGED << inst, phase, obs, grid >>
+
+NextH == (\E a \in HApis(inst.gk) : HCall(a)) \/ (\E op \in DerOps : Derive(op)) \/ (\E c \in Confs : Reconfigure(c))
 SpecH == InitH /\ [][NextH]_vars
 
 -----------------------------------------------------------------------------
@@ -433,8 +481,18 @@ GridAsBuilt == grid = TermsAfter(BuiltTerms(Cardinality(inst.u)), OpsOf(hist))
 HistorySeesBuiltGrid ==
     \A j \in DOMAIN hist : hist[j].seen = TermsAfter(BuiltTerms(Cardinality(inst.u)), OpsOf(SubSeq(hist, 1, j)))
 HistoryShape == phase = "history" =>
-                  /\ CallsIn(hist) <= inst.depth /\ DerivesIn(hist) <= 1
-                  /\ \A j \in DOMAIN hist : hist[j].api \in (IF j = 1 THEN HFirst(inst.gk) ELSE HApis(inst.gk) \cup {"derive"})
+                  /\ CallsIn(hist) <= inst.depth /\ DerivesIn(hist) <= 1 /\ ReconfsIn(hist) <= 1
+                  /\ \A j \in DOMAIN hist : hist[j].api \in (IF j = 1 THEN HFirst(inst.gk) ELSE HApis(inst.gk) \cup {"derive", "reconfigure"})
+\* configuration: the one in force is the last one pushed; every relocating call of a history used the minimum that was
+\* configured when it was made; and the configuration only changes in a Reconfigure step
+ConfsOf(hh) == LET d == SelectSeq(hh, LAMBDA e : e.api = "reconfigure") IN [j \in DOMAIN d |-> d[j].op[1]]
+ConfigurationInForce == cfg = InForce(ConfsOf(hist))
+CallsUseCurrentConfiguration ==
+    \A j \in DOMAIN hist :
+        hist[j].api \in Relocating => hist[j].op[1] = ConfMin(InForce(ConfsOf(SubSeq(hist, 1, j))), ProfOf(inst.par[4]))
+ConfigurationOnlyPushed == [][cfg' # cfg => (Len(hist') = Len(hist) + 1 /\ hist'[Len(hist')].api = "reconfigure")]_vars
+\* the three configurations really differ for both profile classes (a stale value is always visible)
+ConfigurationsDiffer == \A c1, c2 \in Confs : \A p \in {"VProfile", "VProfileSmall"} : c1 # c2 => ConfMin(c1, p) # ConfMin(c2, p)
 \* the two formulations of a derived grid agree: terms evaluated on sample built coordinates = the derivations applied to them
 TermsDenoteCoordinates ==
     phase = "history" /\ inst.gk = "g1d" =>
@@ -537,6 +595,16 @@ LineAnyDirection ==
 \* the direction is pinned: for every line angle that is a multiple of 90 degrees (in any quadrant, negative, beyond a full
 \* turn) the points lie on the lattice along QuarterDir; the mirror image about the centre (a line angle taken modulo 180), a
 \* quarter turn the wrong way and a 3-4-5 direction are all rejected; 360 degrees more is the same line
+\* the number of projected points: consistent with the points themselves (the last of N points spaced by s is still inside the
+\* longest path, one more would leave it) -- the count formula and the spacing agree
+ProjectedCountFitsExtent ==
+    Returned /\ inst.api = "project" /\ inst.gk = "g2d" =>
+        \A o \in { <<0, 0>>, <<1, -2>>, <<-3, 5>> } :
+            LET s == inst.par[1] c == << inst.par[2], inst.par[3] >>
+                N == ProjectedCount(inst.h, inst.w, s, o, c) d == LongestPath(inst.h, inst.w, s, o, c)
+            IN /\ N >= 1 /\ (N - 1) * s <= d /\ N * s > d
+               /\ CountOk(N, 0, inst.h, inst.w, s, o, c, TRUE) /\ CountOk(N - 1, 1, inst.h, inst.w, s, o, c, TRUE)
+               /\ ~ CountOk(N + 1, 0, inst.h, inst.w, s, o, c, FALSE) /\ ~ CountOk(N - 1, 0, inst.h, inst.w, s, o, c, TRUE)
 QuarterTurnsPinned ==
     Returned /\ inst.api = "project" /\ inst.gk # "irr" /\ inst.par[4] \notin {NoAngle, NumericAngle} =>
         LET t == ProjectLineQ(inst.par[4]) S == 20 c == << inst.par[2], inst.par[3] >>
